@@ -61,6 +61,11 @@ fn rules() -> Vec<Rule> {
         rule!("undeclared.placeholder", "shout(\"a{zz_u}b\")", undeclared, Always),
         rule!("undeclared.write", "zz_u get 1", assign_undeclared, Always),
         rule!("undeclared.use-before-make", "shout(zz_later)\nmake zz_later get 1", undeclared, Always),
+        rule!("undeclared.own-name-in-initialiser", "make zz_sr get zz_sr add 1", undeclared, Always),
+        rule!("undeclared.own-name-in-initialiser-argument", "make zz_sa get to_string(zz_sa)", undeclared, Always),
+        rule!("undeclared.own-name-in-initialiser-placeholder", "make zz_sp get \"v={zz_sp}\"", undeclared, Always),
+        rule!("undeclared.own-name-in-initialiser-array", "make zz_sy get [1, zz_sy]", undeclared, Always),
+        rule!("control.outer-name-in-shadowing-initialiser", "make zz_so get 5\nstart\nmake zz_so get zz_so add 1\nshout(zz_so)\nend\nshout(zz_so)", none, Never),
         rule!("undeclared.use-after-block", "start\nmake zz_in get 1\nend\nshout(zz_in)", undeclared, Always),
         rule!("undeclared.callee-local", "do zz_f() start\nmake zz_loc get 1\nend\nzz_f()\nshout(zz_loc)", undeclared, Always),
         rule!("undeclared.callee-parameter", "do zz_f2(zz_par) start\nend\nzz_f2(1)\nshout(zz_par)", undeclared, Always),
@@ -96,6 +101,9 @@ fn rules() -> Vec<Rule> {
         rule!("duplicate.function-with-nested-function", "do zz_dn() start\ndo zz_in() start\nreturn 1\nend\nreturn zz_in()\nend\ndo zz_dn() start\ndo zz_in2() start\nreturn 2\nend\nreturn zz_in2()\nend", duplicate, Always),
         rule!("duplicate.function-called-between", "do zz_dc() start\nreturn 1\nend\nshout(zz_dc())\ndo zz_dc() start\njasi (false) start\ncomot\nend\nreturn 2\nend", duplicate, Always),
         rule!("duplicate.parameter", "do zz_p(q, q) start\nend", duplicate, Always),
+        rule!("duplicate.parameter-underscore", "do zz_pu(_, _) start\nend", duplicate, Always),
+        rule!("duplicate.parameter-underscore-apart", "do zz_pv(_, value, _) start\nreturn value\nend", duplicate, Always),
+        rule!("control.parameter-underscore-once", "do zz_pw(_, value) start\nreturn value\nend\nshout(zz_pw(1, 2))", none, Never),
         rule!("duplicate.parameter-apart", "do zz_p2(q, r, q) start\nend", duplicate, Always),
         rule!("reserved.builtin-as-variable", "make shout get 1", reserved, Always),
         rule!("reserved.builtin-as-variable-2", "make typeof get 1", reserved, Always),
